@@ -57,23 +57,25 @@ Section Idem.
   Variables (fs fs' : list Factor) (d1 d2 : RNC).
   Hypothesis Hnorm : normalize_factors fs d1 d2 = Ok fs'.
 
-  Lemma forced_fixed k : In k forced_keys -> lookk fs' k = Some one.
+  (** every carrier of the supplied set has its grid supply factor in the prepared set *)
+  Lemma carrier_grid_defined c : In c (carriers_of fs) -> lookk fs' (grid_key c) <> None.
   Proof.
-    intros H. cbn in H. destruct H as [<-|[<-|[<-|[<-|[<-|[]]]]]];
+    intros Hc. destruct (norm_parts fs fs' d1 d2 Hnorm) as (fs2 & E & Efs).
+    pose proof Hnorm as Hn. rewrite normalize_unfold in Hn. cbv zeta in Hn.
+    destruct (forallb (fun c => existsb (kmatch (grid_key c)) (forced_updates fs)) (carriers_of fs)) eqn:G; [|discriminate].
+    rewrite forallb_forall in G. clear Hn.
+    rewrite Efs. apply ensure_keeps_defined, ensure_keeps_defined. eapply ensure_exports_keeps_defined; [exact E|].
+    specialize (G c Hc). apply lookk_some_exists in G as [x Gx]. congruence.
+  Qed.
+
+  (** the factors fixed by the method; the one of on-site electricity when the set mentions electricity *)
+  Lemma forced_fixed k : In k forced_keys -> (k = K_EL_INSITU -> In ELECTRICIDAD (carriers_of fs)) -> lookk fs' k = Some one.
+  Proof.
+    intros H Hel. cbn in H. destruct H as [<-|[<-|[<-|[<-|[<-|[]]]]]];
       try (apply (normalize_forced fs d1 d2 fs'); [exact Hnorm|cbn; tauto]).
     destruct (norm_parts fs fs' d1 d2 Hnorm) as (fs2 & E & Efs). rewrite Efs.
     apply ensure_keeps, ensure_keeps. eapply ensure_exports_keeps; [exact E|].
-    apply (insitu_supply_forced fs fs' d1 d2 Hnorm). cbn. tauto.
-  Qed.
-
-  Lemma forced_updates_noop : forced_updates fs' = fs'.
-  Proof.
-    unfold forced_updates.
-    rewrite (update_noop fs' K_EAMB_INSITU one []) by (apply forced_fixed; cbn; tauto).
-    rewrite (update_noop fs' K_EAMB_RED one []) by (apply forced_fixed; cbn; tauto).
-    rewrite (update_noop fs' K_TERMO_INSITU one []) by (apply forced_fixed; cbn; tauto).
-    rewrite (update_noop fs' K_TERMO_RED one []) by (apply forced_fixed; cbn; tauto).
-    destruct (existsb _ _); [|reflexivity]. apply update_noop. apply forced_fixed. cbn. tauto.
+    apply (insitu_supply_forced fs fs' d1 d2 Hnorm); [cbn; tauto|]. apply carrier_grid_defined, Hel. reflexivity.
   Qed.
 
   (** where the carriers of the prepared set come from *)
@@ -105,72 +107,123 @@ Section Idem.
 
   Definition extra_crs : list Carrier := [EAMBIENTE; TERMOSOLAR; ELECTRICIDAD; RED1; RED2].
 
-  Lemma ensure_exports_carriers cs : forall g g' f, (forall c s, In (c, s) cs -> In c extra_crs) ->
-    ensure_exports g cs = Ok g' -> In f g' -> In f g \/ In (f_cr f) extra_crs.
+  Lemma ensure_exports_carriers wf cs : forall g g' f, (forall c s, In (c, s) cs -> In c extra_crs) ->
+    ensure_exports wf g cs = Ok g' -> In f g' -> In f g \/ In (f_cr f) extra_crs.
   Proof.
     induction cs as [|[c0 s0] cs IH]; intros g g' f Hcs H Hf; cbn [ensure_exports] in H.
     - injection H as <-. now left.
     - set (g1 := match lookk g (c0, s0, SUMINISTRO, STEP_A) with Some v => _ | None => g end) in *.
-      destruct (lookk g1 (grid_key c0)) as [gv|]; [|discriminate].
       assert (C0 : In c0 extra_crs) by (apply (Hcs c0 s0); now left).
-      destruct (IH _ _ f (fun c s Hc => Hcs c s (or_intror Hc)) H Hf) as [Hin|Hx]; [|now right].
-      apply ensure_carriers in Hin as [Hin|E]; [|right; now rewrite E].
-      apply ensure_carriers in Hin as [Hin|E]; [|right; now rewrite E].
-      unfold g1 in Hin. destruct (lookk g (c0, s0, SUMINISTRO, STEP_A)); [|now left].
-      apply ensure_carriers in Hin as [Hin|E]; [|right; now rewrite E].
-      apply ensure_carriers in Hin as [Hin|E]; [|right; now rewrite E]. now left.
+      assert (G1 : In f g1 -> In f g \/ In (f_cr f) extra_crs).
+      { intros Hin. unfold g1 in Hin. destruct (lookk g (c0, s0, SUMINISTRO, STEP_A)); [|now left].
+        apply ensure_carriers in Hin as [Hin|E]; [|right; now rewrite E].
+        apply ensure_carriers in Hin as [Hin|E]; [|right; now rewrite E]. now left. }
+      destruct (lookk g1 (grid_key c0)) as [gv|].
+      + destruct (IH _ _ f (fun c s Hc => Hcs c s (or_intror Hc)) H Hf) as [Hin|Hx]; [|now right].
+        apply ensure_carriers in Hin as [Hin|E]; [|right; now rewrite E].
+        apply ensure_carriers in Hin as [Hin|E]; [|right; now rewrite E]. now apply G1.
+      + destruct (existsb (Carrier_beq c0) wf); [discriminate|].
+        destruct (IH _ _ f (fun c s Hc => Hcs c s (or_intror Hc)) H Hf) as [Hin|Hx]; [|now right]. now apply G1.
+  Qed.
+
+  (** a carrier the set says nothing about gets no export factors *)
+  Lemma lookk_absent g c s d st : ~ cr_in g c -> lookk g (c, s, d, st) = None.
+  Proof.
+    intros N. destruct (lookk g (c, s, d, st)) eqn:L; [|reflexivity]. exfalso. apply N.
+    apply in_carriers_of. apply (lookk_defined_carrier g c s d st). congruence.
+  Qed.
+
+  Lemma ensure_absent g k v cm c : ~ cr_in g c -> key_cr k <> c -> ~ cr_in (ensure_wfactor g k v cm) c.
+  Proof. intros N Hk (f & Hf & Ef). apply ensure_carriers in Hf as [Hf|E]; [apply N; exists f; tauto|congruence]. Qed.
+
+  Lemma ensure_exports_absent wf cs c : forall g g', ~ cr_in g c -> ensure_exports wf g cs = Ok g' -> ~ cr_in g' c.
+  Proof.
+    induction cs as [|[c0 s0] cs IH]; intros g g' N H; cbn [ensure_exports] in H; [now injection H as <-|].
+    set (g1 := match lookk g (c0, s0, SUMINISTRO, STEP_A) with Some v => _ | None => g end) in *.
+    destruct (Carrier_eq_dec c0 c) as [->|Nc].
+    - assert (E1 : g1 = g) by (unfold g1; now rewrite (lookk_absent g c s0 SUMINISTRO STEP_A N)).
+      rewrite E1 in H. unfold grid_key in H. rewrite (lookk_absent g c RED SUMINISTRO STEP_A N) in H.
+      destruct (existsb (Carrier_beq c) wf); [discriminate|]. eapply IH; eassumption.
+    - assert (N1 : ~ cr_in g1 c).
+      { unfold g1. destruct (lookk g (c0, s0, SUMINISTRO, STEP_A)); [|exact N]. apply ensure_absent; [apply ensure_absent; [exact N|exact Nc]|exact Nc]. }
+      destruct (lookk g1 (grid_key c0)) as [gv|].
+      + eapply IH; [|exact H]. apply ensure_absent; [apply ensure_absent; [exact N1|exact Nc]|exact Nc].
+      + destruct (existsb (Carrier_beq c0) wf); [discriminate|]. eapply IH; eassumption.
+  Qed.
+
+  Lemma el_back : In ELECTRICIDAD (carriers_of fs') -> In ELECTRICIDAD (carriers_of fs).
+  Proof.
+    intros H. destruct (in_dec Carrier_eq_dec ELECTRICIDAD (carriers_of fs)) as [Y|N]; [exact Y|]. exfalso.
+    destruct (norm_parts fs fs' d1 d2 Hnorm) as (fs2 & E & Efs).
+    assert (N0 : ~ cr_in (forced_updates fs) ELECTRICIDAD).
+    { intros (f & Hf & Ef). apply forced_updates_carriers in Hf as [Hin|[Hin|[_ Hin]]].
+      - apply N, in_carriers_of. rewrite <- Ef. exact Hin.
+      - rewrite Ef in Hin. cbn in Hin. destruct Hin as [Q|[Q|[]]]; discriminate.
+      - apply N, in_carriers_of, Hin. }
+    pose proof (ensure_exports_absent _ _ ELECTRICIDAD _ _ N0 E) as N2.
+    apply in_carriers_of in H. rewrite Efs in H.
+    revert H. apply ensure_absent; [apply ensure_absent; [exact N2|discriminate]|discriminate].
+  Qed.
+
+  Lemma forced_updates_noop : forced_updates fs' = fs'.
+  Proof.
+    unfold forced_updates.
+    rewrite (update_noop fs' K_EAMB_INSITU one []) by (apply forced_fixed; [cbn; tauto|discriminate]).
+    rewrite (update_noop fs' K_EAMB_RED one []) by (apply forced_fixed; [cbn; tauto|discriminate]).
+    rewrite (update_noop fs' K_TERMO_INSITU one []) by (apply forced_fixed; [cbn; tauto|discriminate]).
+    rewrite (update_noop fs' K_TERMO_RED one []) by (apply forced_fixed; [cbn; tauto|discriminate]).
+    destruct (existsb (Carrier_beq ELECTRICIDAD) (carriers_of fs')) eqn:X; [|reflexivity]. apply update_noop. apply forced_fixed; [cbn; tauto|].
+    intros _. apply el_back. apply existsb_exists in X as (c & Hc & Ec). apply Carrier_beq_eq in Ec. now subst c.
   Qed.
 
   (** every carrier of the prepared set has its grid supply factor *)
   Lemma prepared_grid c : In c (carriers_of fs') -> lookk fs' (grid_key c) <> None.
   Proof.
-    intros Hc. apply in_carriers_of in Hc as (f & Hf & <-).
+    intros Hc. destruct (Carrier_eq_dec c ELECTRICIDAD) as [->|Nel]; [apply carrier_grid_defined, el_back, Hc|].
+    apply in_carriers_of in Hc as (f & Hf & <-).
     destruct (norm_parts fs fs' d1 d2 Hnorm) as (fs2 & E & Efs).
-    pose proof Hnorm as Hn. rewrite normalize_unfold in Hn. cbv zeta in Hn.
-    destruct (forallb (fun c => existsb (kmatch (grid_key c)) (forced_updates fs)) (carriers_of fs)) eqn:G; [|discriminate].
-    rewrite forallb_forall in G. clear Hn.
-    assert (Through : forall k, lookk (forced_updates fs) k <> None -> lookk fs' k <> None).
-    { intros k Hk. rewrite Efs. apply ensure_keeps_defined, ensure_keeps_defined.
-      eapply ensure_exports_keeps_defined; eassumption. }
-    assert (Orig : forall c, cr_in fs c -> lookk fs' (grid_key c) <> None).
-    { intros c Hc. apply Through.
-      assert (Gc : existsb (kmatch (grid_key c)) (forced_updates fs) = true).
-      { apply G. apply in_carriers_of. exact Hc. }
-      apply lookk_some_exists in Gc as [x Gx]. congruence. }
-    assert (Extra : forall c, In c extra_crs -> lookk fs' (grid_key c) <> None).
-    { intros c Hx. cbn in Hx. destruct Hx as [<-|[<-|[<-|[<-|[<-|[]]]]]].
-      - change (grid_key EAMBIENTE) with K_EAMB_RED. rewrite forced_fixed; [discriminate|cbn; tauto].
-      - change (grid_key TERMOSOLAR) with K_TERMO_RED. rewrite forced_fixed; [discriminate|cbn; tauto].
-      - apply (normalize_keeps_defined fs d1 d2 fs' _ Hnorm). apply (el_grid_defined fs fs' d1 d2 Hnorm).
+    assert (Extra : forall c, In c extra_crs -> c <> ELECTRICIDAD -> lookk fs' (grid_key c) <> None).
+    { intros c Hx Nc. cbn in Hx. destruct Hx as [<-|[<-|[<-|[<-|[<-|[]]]]]].
+      - change (grid_key EAMBIENTE) with K_EAMB_RED. rewrite forced_fixed; [discriminate|cbn; tauto|discriminate].
+      - change (grid_key TERMOSOLAR) with K_TERMO_RED. rewrite forced_fixed; [discriminate|cbn; tauto|discriminate].
+      - congruence.
       - rewrite Efs. apply ensure_keeps_defined. change (grid_key RED1) with K_RED1. apply ensure_defines.
       - rewrite Efs. change (grid_key RED2) with K_RED2. apply ensure_defines. }
     rewrite Efs in Hf.
-    apply ensure_carriers in Hf as [Hf|Ef]; [|apply Extra; rewrite Ef; cbn; tauto].
-    apply ensure_carriers in Hf as [Hf|Ef]; [|apply Extra; rewrite Ef; cbn; tauto].
-    apply (ensure_exports_carriers exp_carriers _ _ f) in E; [|intros c s Hcs; cbn in Hcs; destruct Hcs as [Q|[Q|[Q|[]]]]; injection Q as <- <-; cbn; tauto|exact Hf].
+    apply ensure_carriers in Hf as [Hf|Ef]; [|apply Extra; [rewrite Ef; cbn; tauto|exact Nel]].
+    apply ensure_carriers in Hf as [Hf|Ef]; [|apply Extra; [rewrite Ef; cbn; tauto|exact Nel]].
+    apply (ensure_exports_carriers _ exp_carriers _ _ f) in E; [|intros c s Hcs; cbn in Hcs; destruct Hcs as [Q|[Q|[Q|[]]]]; injection Q as <- <-; cbn; tauto|exact Hf].
     destruct E as [Hin|Hx]; [|now apply Extra].
     apply forced_updates_carriers in Hin as [Hin|[Hin|[Hin _]]].
-    - now apply Orig.
-    - apply Extra. cbn in Hin |- *. tauto.
-    - apply Extra. rewrite Hin. cbn. tauto.
+    - apply carrier_grid_defined, in_carriers_of, Hin.
+    - apply Extra; [cbn in Hin |- *; tauto|exact Nel].
+    - congruence.
   Qed.
 
-  Lemma ensure_exports_noop cs : (forall c s, In (c, s) cs -> In (c, s) exp_carriers) -> ensure_exports fs' cs = Ok fs'.
+  Lemma ensure_exports_noop cs : (forall c s, In (c, s) cs -> In (c, s) exp_carriers) -> ensure_exports (carriers_of fs') fs' cs = Ok fs'.
   Proof.
     induction cs as [|[c s] cs IH]; intros H; cbn [ensure_exports]; [reflexivity|].
     assert (Hin : In (c, s) exp_carriers) by (apply H; now left).
     assert (Hs : s = INSITU) by (cbn in Hin; destruct Hin as [Q|[Q|[Q|[]]]]; now injection Q).
     subst s.
-    destruct (lookk fs' (c, INSITU, SUMINISTRO, STEP_A)) as [v|] eqn:S;
-      [|exfalso; exact (insitu_supply_defined fs fs' d1 d2 Hnorm c Hin S)].
-    rewrite (ensure_noop fs' (c, INSITU, A_RED, STEP_A)) by (apply (insitu_export_defined fs fs' d1 d2 Hnorm); [exact Hin|discriminate]).
-    rewrite (ensure_noop fs' (c, INSITU, A_NEPB, STEP_A)) by (apply (insitu_export_defined fs fs' d1 d2 Hnorm); [exact Hin|discriminate]).
-    assert (G : lookk fs' (grid_key c) <> None).
-    { apply prepared_grid. apply (lookk_defined_carrier fs' c INSITU SUMINISTRO STEP_A). rewrite S. discriminate. }
-    destruct (lookk fs' (grid_key c)) as [g|]; [|congruence].
-    rewrite (ensure_noop fs' (c, INSITU, A_RED, STEP_B)) by (apply (insitu_export_defined fs fs' d1 d2 Hnorm); [exact Hin|discriminate]).
-    rewrite (ensure_noop fs' (c, INSITU, A_NEPB, STEP_B)) by (apply (insitu_export_defined fs fs' d1 d2 Hnorm); [exact Hin|discriminate]).
-    apply IH. intros; apply H; now right.
+    destruct (lookk fs' (grid_key c)) as [g|] eqn:G.
+    - assert (G' : lookk fs' (grid_key c) <> None) by congruence.
+      destruct (lookk fs' (c, INSITU, SUMINISTRO, STEP_A)) as [v|] eqn:S;
+        [|exfalso; exact (insitu_supply_defined fs fs' d1 d2 Hnorm c Hin G' S)].
+      rewrite (ensure_noop fs' (c, INSITU, A_RED, STEP_A)) by (apply (insitu_export_defined fs fs' d1 d2 Hnorm); [exact Hin|exact G'|discriminate]).
+      rewrite (ensure_noop fs' (c, INSITU, A_NEPB, STEP_A)) by (apply (insitu_export_defined fs fs' d1 d2 Hnorm); [exact Hin|exact G'|discriminate]).
+      rewrite G.
+      rewrite (ensure_noop fs' (c, INSITU, A_RED, STEP_B)) by (apply (insitu_export_defined fs fs' d1 d2 Hnorm); [exact Hin|exact G'|discriminate]).
+      rewrite (ensure_noop fs' (c, INSITU, A_NEPB, STEP_B)) by (apply (insitu_export_defined fs fs' d1 d2 Hnorm); [exact Hin|exact G'|discriminate]).
+      apply IH. intros; apply H; now right.
+    - assert (Nc : ~ In c (carriers_of fs')) by (intros Hc; exact (prepared_grid c Hc G)).
+      assert (S : lookk fs' (c, INSITU, SUMINISTRO, STEP_A) = None).
+      { destruct (lookk fs' (c, INSITU, SUMINISTRO, STEP_A)) eqn:L; [|reflexivity]. exfalso. apply Nc.
+        apply (lookk_defined_carrier fs' c INSITU SUMINISTRO STEP_A). congruence. }
+      rewrite S, G.
+      assert (X : existsb (Carrier_beq c) (carriers_of fs') = false).
+      { apply not_true_is_false. intros T. apply existsb_exists in T as (c1 & H1 & E1). apply Carrier_beq_eq in E1. subst c1. contradiction. }
+      rewrite X. apply IH. intros; apply H; now right.
   Qed.
 
   Theorem normalize_idempotent : normalize_factors fs' d1 d2 = Ok fs'.
@@ -231,14 +284,28 @@ Proof.
     destruct dest; try congruence; destruct step; rewrite ?Refl, ?NE by discriminate; reflexivity.
 Qed.
 
-Lemma ensure_exports_unfold fs c s cs :
-  ensure_exports fs ((c, s) :: cs) =
+(** the step A half of a step, for a carrier without grid factor *)
+Definition exports_half (fs : list Factor) (c : Carrier) (s : Source) : list Factor :=
+  match lookk fs (c, s, SUMINISTRO, STEP_A) with
+  | Some v => ensure_wfactor (ensure_wfactor fs (c, s, A_RED, STEP_A) v []) (c, s, A_NEPB, STEP_A) v []
+  | None => fs end.
+
+Lemma exports_half_other fs c s k : key_cr k <> c -> lookk (exports_half fs c s) k = lookk fs k.
+Proof.
+  intros N. unfold exports_half.
+  assert (F : forall d st, fkey_eqb (c, s, d, st) k = false).
+  { intros d st. destruct (fkey_eqb_spec (c, s, d, st) k) as [<-|]; [cbn in N; congruence|reflexivity]. }
+  destruct (lookk fs (c, s, SUMINISTRO, STEP_A)); [|reflexivity]. rewrite !lookk_ensure, !F; destruct (lookk fs k); reflexivity.
+Qed.
+
+Lemma ensure_exports_unfold wf fs c s cs :
+  ensure_exports wf fs ((c, s) :: cs) =
   match lookk fs (grid_key c) with
-  | Some g => ensure_exports (exports_step fs c s g) cs
-  | None => Err MissingFactor
+  | Some g => ensure_exports wf (exports_step fs c s g) cs
+  | None => if existsb (Carrier_beq c) wf then Err MissingFactor else ensure_exports wf (exports_half fs c s) cs
   end.
 Proof.
-  cbn [ensure_exports]. unfold exports_step.
+  cbn [ensure_exports]. unfold exports_step, exports_half.
   assert (G : forall v, lookk (ensure_wfactor (ensure_wfactor fs (c, s, A_RED, STEP_A) v []) (c, s, A_NEPB, STEP_A) v []) (grid_key c)
                   = lookk fs (grid_key c)).
   { intros v. rewrite !lookk_ensure. unfold grid_key.
@@ -248,13 +315,15 @@ Proof.
   destruct (lookk fs (c, s, SUMINISTRO, STEP_A)); [rewrite G|]; reflexivity.
 Qed.
 
-Lemma ensure_exports_other cs : forall fs fs' k, (forall c s, In (c, s) cs -> key_cr k <> c) ->
-  ensure_exports fs cs = Ok fs' -> lookk fs' k = lookk fs k.
+Lemma ensure_exports_other wf cs : forall fs fs' k, (forall c s, In (c, s) cs -> key_cr k <> c) ->
+  ensure_exports wf fs cs = Ok fs' -> lookk fs' k = lookk fs k.
 Proof.
   induction cs as [|[c s] cs IH]; intros fs fs' k H E.
   - cbn in E. now injection E as <-.
-  - rewrite ensure_exports_unfold in E. destruct (lookk fs (grid_key c)) as [g|]; [|discriminate].
-    rewrite (IH _ _ k (fun c0 s0 H0 => H c0 s0 (or_intror H0)) E). apply exports_step_other. apply (H c s). now left.
+  - rewrite ensure_exports_unfold in E. destruct (lookk fs (grid_key c)) as [g|].
+    + rewrite (IH _ _ k (fun c0 s0 H0 => H c0 s0 (or_intror H0)) E). apply exports_step_other. apply (H c s). now left.
+    + destruct (existsb (Carrier_beq c) wf); [discriminate|].
+      rewrite (IH _ _ k (fun c0 s0 H0 => H c0 s0 (or_intror H0)) E). apply exports_half_other. apply (H c s). now left.
 Qed.
 
 Lemma red_precedence fs r1 d1 d2 fs' r2 :
@@ -272,7 +341,7 @@ Proof.
   { intros k Hk.
     assert (C : forall c s, In (c, s) exp_carriers -> key_cr k <> c).
     { intros c s Hin. cbn in Hin. destruct Hin as [Q|[Q|[Q|[]]]]; injection Q as <- <-; destruct Hk as [-> | ->]; discriminate. }
-    rewrite (ensure_exports_other exp_carriers (forced_updates fs0) fs2 k C E).
+    rewrite (ensure_exports_other _ exp_carriers (forced_updates fs0) fs2 k C E).
     apply forced_updates_other. destruct k as [[[a b] c0] e0]. cbn in Hk. cbn.
     intros [Q|[Q|[Q|[Q|[Q|[]]]]]]; injection Q; intros; subst; destruct Hk; discriminate. }
   assert (F11 : fkey_eqb K_RED1 K_RED1 = true) by reflexivity.
@@ -286,47 +355,61 @@ Proof.
     destruct r2; [reflexivity|]. destruct (lookk fs K_RED2); reflexivity.
 Qed.
 
-(** default export factors: step A = on-site supply factor (1,0,0), step B = grid supply factor *)
+(** default export factors of a carrier the set has a grid factor for: step A = on-site supply factor (1,0,0),
+    step B = grid supply factor *)
 Lemma export_defaults fs d1 d2 fs' c dest :
-  normalize_factors fs d1 d2 = Ok fs' -> In (c, INSITU) exp_carriers -> dest <> SUMINISTRO ->
+  normalize_factors fs d1 d2 = Ok fs' -> In (c, INSITU) exp_carriers -> lookk fs' (grid_key c) <> None -> dest <> SUMINISTRO ->
   lookk fs' (c, INSITU, dest, STEP_A) = Some (match lookk fs (c, INSITU, dest, STEP_A) with Some x => x | None => one end) /\
   lookk fs' (c, INSITU, dest, STEP_B) = match lookk fs (c, INSITU, dest, STEP_B) with Some x => Some x | None => lookk fs' (grid_key c) end.
 Proof.
-  intros H Hin Hd. destruct (norm_parts fs fs' d1 d2 H) as (fs2 & E & Efs).
+  intros H Hin Hg Hd. destruct (norm_parts fs fs' d1 d2 H) as (fs2 & E & Efs).
   set (g0 := forced_updates fs) in *.
   assert (NF : forall st, lookk g0 (c, INSITU, dest, st) = lookk fs (c, INSITU, dest, st)).
   { intros st. apply forced_updates_other. cbn. intros [Q|[Q|[Q|[Q|[Q|[]]]]]]; injection Q; intros; subst; congruence. }
-  assert (Sup : lookk g0 (c, INSITU, SUMINISTRO, STEP_A) = Some one) by (apply (insitu_supply_forced fs fs' d1 d2 H); exact Hin).
+  assert (Sup : lookk g0 (c, INSITU, SUMINISTRO, STEP_A) = Some one) by (apply (insitu_supply_forced fs fs' d1 d2 H); assumption).
   assert (Fin : forall k, key_cr k = c -> lookk fs' k = lookk fs2 k).
   { intros k Hk. rewrite Efs, !lookk_ensure.
     assert (F1 : fkey_eqb K_RED1 k = false) by (destruct (fkey_eqb_spec K_RED1 k) as [<-|]; [cbn in Hk; subst c; cbn in Hin; destruct Hin as [Q|[Q|[Q|[]]]]; discriminate|reflexivity]).
     assert (F2 : fkey_eqb K_RED2 k = false) by (destruct (fkey_eqb_spec K_RED2 k) as [<-|]; [cbn in Hk; subst c; cbn in Hin; destruct Hin as [Q|[Q|[Q|[]]]]; discriminate|reflexivity]).
     rewrite F1, F2. destruct (lookk fs2 k); reflexivity. }
-  (* unfold the three steps; only the step of carrier c matters for keys of carrier c *)
+  (* the electricity step: a full step, or (no grid factor for electricity) a step that changes no other carrier *)
   unfold exp_carriers in E. rewrite ensure_exports_unfold in E.
-  destruct (lookk g0 (grid_key ELECTRICIDAD)) as [g1|] eqn:G1; [|discriminate].
-  set (h1 := exports_step g0 ELECTRICIDAD INSITU g1) in *. rewrite ensure_exports_unfold in E.
-  destruct (lookk h1 (grid_key EAMBIENTE)) as [g2|] eqn:G2; [|discriminate].
-  set (h2 := exports_step h1 EAMBIENTE INSITU g2) in *. rewrite ensure_exports_unfold in E.
-  destruct (lookk h2 (grid_key TERMOSOLAR)) as [g3|] eqn:G3; [|discriminate].
-  set (h3 := exports_step h2 TERMOSOLAR INSITU g3) in *. cbn [ensure_exports] in E. injection E as <-.
+  assert (Step1 : exists h1, ensure_exports (carriers_of fs) h1 [(EAMBIENTE, INSITU); (TERMOSOLAR, INSITU)] = Ok fs2
+                   /\ (forall k, key_cr k <> ELECTRICIDAD -> lookk h1 k = lookk g0 k)
+                   /\ (c = ELECTRICIDAD -> exists g1, lookk g0 (grid_key ELECTRICIDAD) = Some g1 /\ h1 = exports_step g0 ELECTRICIDAD INSITU g1)).
+  { destruct (lookk g0 (grid_key ELECTRICIDAD)) as [g1|] eqn:G1.
+    - exists (exports_step g0 ELECTRICIDAD INSITU g1). split; [exact E|]. split; [intros k Hk; now apply exports_step_other|]. intros _. eauto.
+    - destruct (existsb (Carrier_beq ELECTRICIDAD) (carriers_of fs)); [discriminate|].
+      exists (exports_half g0 ELECTRICIDAD INSITU). split; [exact E|]. split; [intros k Hk; now apply exports_half_other|].
+      intros ->. exfalso. apply (grid_forced fs fs' d1 d2 H ELECTRICIDAD Hg Hin). exact G1. }
+  destruct Step1 as (h1 & E1 & O1 & El1). clear E.
+  rewrite ensure_exports_unfold in E1.
+  destruct (lookk h1 (grid_key EAMBIENTE)) as [g2|] eqn:G2.
+  2:{ exfalso. rewrite O1 in G2 by (cbn; discriminate). unfold g0 in G2. change (grid_key EAMBIENTE) with K_EAMB_RED in G2.
+      rewrite forced_updates_forced in G2 by (cbn; tauto). discriminate. }
+  set (h2 := exports_step h1 EAMBIENTE INSITU g2) in *. rewrite ensure_exports_unfold in E1.
+  destruct (lookk h2 (grid_key TERMOSOLAR)) as [g3|] eqn:G3.
+  2:{ exfalso. unfold h2 in G3. rewrite exports_step_other, O1 in G3 by (cbn; discriminate). unfold g0 in G3. change (grid_key TERMOSOLAR) with K_TERMO_RED in G3.
+      rewrite forced_updates_forced in G3 by (cbn; tauto). discriminate. }
+  set (h3 := exports_step h2 TERMOSOLAR INSITU g3) in *. cbn [ensure_exports] in E1. injection E1 as <-.
   rewrite !Fin by reflexivity.
   cbn in Hin. destruct Hin as [Q|[Q|[Q|[]]]]; injection Q as <-.
   - (* ELECTRICIDAD: set in step 1, untouched by steps 2 and 3 *)
-    unfold h3, h2. rewrite !exports_step_other by (cbn; discriminate). unfold h1.
+    destruct (El1 eq_refl) as (g1 & G1 & Eh1).
+    unfold h3, h2. rewrite !exports_step_other by (cbn; discriminate). rewrite Eh1.
     rewrite !exports_step_key by exact Hd. rewrite !NF, Sup.
     assert (GK : lookk (exports_step g0 ELECTRICIDAD INSITU g1) (grid_key ELECTRICIDAD) = Some g1).
     { unfold exports_step. destruct (lookk g0 (ELECTRICIDAD, INSITU, SUMINISTRO, STEP_A)); rewrite !lookk_ensure; unfold grid_key in *; rewrite G1; reflexivity. }
     rewrite GK. split; destruct (lookk fs _); reflexivity.
   - unfold h3. rewrite !exports_step_other by (cbn; discriminate). unfold h2.
-    rewrite !exports_step_key by exact Hd. unfold h1. rewrite !exports_step_other by (cbn; discriminate).
+    rewrite !exports_step_key by exact Hd. rewrite !O1 by (cbn; discriminate).
     rewrite !NF, Sup.
-    assert (GK : lookk (exports_step (exports_step g0 ELECTRICIDAD INSITU g1) EAMBIENTE INSITU g2) (grid_key EAMBIENTE) = Some g2).
-    { unfold exports_step at 1. fold h1. destruct (lookk h1 (EAMBIENTE, INSITU, SUMINISTRO, STEP_A)); rewrite !lookk_ensure; unfold grid_key in *; rewrite G2; reflexivity. }
+    assert (GK : lookk (exports_step h1 EAMBIENTE INSITU g2) (grid_key EAMBIENTE) = Some g2).
+    { unfold exports_step. destruct (lookk h1 (EAMBIENTE, INSITU, SUMINISTRO, STEP_A)); rewrite !lookk_ensure; unfold grid_key in *; rewrite G2; reflexivity. }
     rewrite GK. split; destruct (lookk fs _); reflexivity.
-  - unfold h3. rewrite !exports_step_key by exact Hd. unfold h2, h1. rewrite !exports_step_other by (cbn; discriminate).
+  - unfold h3. rewrite !exports_step_key by exact Hd. unfold h2. rewrite !exports_step_other by (cbn; discriminate). rewrite !O1 by (cbn; discriminate).
     rewrite !NF, Sup.
     assert (GK : lookk (exports_step h2 TERMOSOLAR INSITU g3) (grid_key TERMOSOLAR) = Some g3).
     { unfold exports_step. destruct (lookk h2 (TERMOSOLAR, INSITU, SUMINISTRO, STEP_A)); rewrite !lookk_ensure; unfold grid_key in *; rewrite G3; reflexivity. }
-    unfold h2, h1 in GK. rewrite GK. split; destruct (lookk fs _); reflexivity.
+    unfold h2 in GK. rewrite GK. split; destruct (lookk fs _); reflexivity.
 Qed.
